@@ -341,12 +341,6 @@ void fiber_manager_do_maintenance() {
     memset(&manager->mpsc_to_push, 0, sizeof(manager->mpsc_to_push));
   }
 
-  if (manager->mutex_to_unlock) {
-    fiber_mutex_t* const to_unlock = manager->mutex_to_unlock;
-    manager->mutex_to_unlock = NULL;
-    fiber_mutex_unlock_internal(to_unlock);
-  }
-
   if (manager->spinlock_to_unlock) {
     fiber_spinlock_t* const to_unlock = manager->spinlock_to_unlock;
     manager->spinlock_to_unlock = NULL;
@@ -357,6 +351,15 @@ void fiber_manager_do_maintenance() {
     *manager->set_wait_location = manager->set_wait_value;
     manager->set_wait_location = NULL;
     manager->set_wait_value = NULL;
+  }
+
+  // this must come last: unlocking a contended mutex can yield, and this fiber
+  // may resume on a different kernel thread - 'manager' must not be used
+  // afterwards
+  if (manager->mutex_to_unlock) {
+    fiber_mutex_t* const to_unlock = manager->mutex_to_unlock;
+    manager->mutex_to_unlock = NULL;
+    fiber_mutex_unlock_internal(to_unlock);
   }
 }
 
